@@ -14,7 +14,7 @@ from .refs.hll_ref import windows
 #   ["udict", [[key, v]...]]   update(dict)   (insertion order preserved)
 #   ["ngram", key, n]          add_ngram(key, n)
 #   ["ungram", [key...], n]    update_ngram(list, n)
-#   ["ulist_nested", [key...], pos]   update(generator) whose production, before item pos, calls update([first key]) on the
+#   ["ulist_nested", [key...], pos]   update(generator) whose production, before item pos, calls update([another key]) on the
 #                                     same sketch in the same thread (re-entrant use of update)
 # The *form* of each call (positional / keyword arguments under their documented names, list / tuple / generator / iterator /
 # map for "a list of keys", dict / Counter / OrderedDict / defaultdict for "a dict") is derived from the operation's content,
@@ -41,7 +41,7 @@ def effects(op):
         return [(unhx(k), 1) for k in op[1]]
     if t == "ulist_nested":
         ks = [unhx(k) for k in op[1]]
-        return [(k, 1) for k in ks[: op[2]] + ks[:1] + ks[op[2]:]]
+        return [(k, 1) for k in ks[: op[2]] + [nested_key(ks)] + ks[op[2]:]]
     if t == "udict":
         return [(unhx(k), int(v)) for k, v in op[1]]
     if t == "ngram":
@@ -52,6 +52,11 @@ def effects(op):
             out.extend((w, 1) for w in windows(unhx(k), int(op[2])))
         return out
     raise ValueError(op)
+
+
+def nested_key(ks):
+    """The key the inner, re-entrant update adds: different from every key of the outer call."""
+    return ks[0][::-1] + b"\xa5\x5a"
 
 
 FORMS = True  # argument-form diversity (set False to call every entry point positionally with list/dict arguments)
@@ -105,8 +110,15 @@ def apply_op(sketch, op):
             sketch.add(unhx(op[1]))
     elif t == "ulist":
         ks = [unhx(k) for k in op[1]]
-        form = (len(ks) + (len(ks[0]) if ks else 0)) % 8 if FORMS else 0
-        if form == 3:
+        form = (len(ks) + (len(ks[0]) if ks else 0)) % 9 if FORMS else 0
+        if form == 8 and ks and all(0 < len(k) <= 8 and not k.endswith(b"\x00") for k in ks):
+            # a NumPy array of fixed-width byte strings: the unchanged library refuses it (TypeError at the first key, nothing
+            # applied); a tree that accepts it must treat it as the list of its elements
+            try:
+                sketch.update(np.array(ks, dtype="S8"))
+            except TypeError:
+                sketch.update(ks)
+        elif form == 3:
             sketch.update(k for k in ks)  # a generator: consumed once
         elif form == 4:
             sketch.update(iter(ks))
@@ -124,10 +136,10 @@ def apply_op(sketch, op):
         def produce():
             for i, k in enumerate(ks):
                 if i == op[2]:
-                    sketch.update([ks[0]])
+                    sketch.update([nested_key(ks)])
                 yield k
             if op[2] >= len(ks):
-                sketch.update([ks[0]])
+                sketch.update([nested_key(ks)])
 
         sketch.update(produce())
     elif t == "udict":
